@@ -499,8 +499,9 @@ Proof.
   assert (B4 : qltb sf' 0 = qltb sf 0) by (rewrite ES; reflexivity).
   rewrite B1, B2, B3, B4.
   destruct (negb (qltb c_lo sf && qltb sf c_hi)); [split; [reflexivity|exact M]|].
-  destruct C as (I & C'). cbn [rm]. apply mr_mset; [exact M|]. apply sr_set_flows; [split; [exact I|exact C']|apply M|].
-  rewrite I. apply vr_vscale_r. unfold qr in *.
+  destruct C as (I & C'). rewrite I.
+  destruct (negb (length y =? length (idx c))%nat); [split; [reflexivity|exact M]|]. cbn [rm]. apply mr_mset; [exact M|]. apply sr_set_flows; [split; [exact I|exact C']|apply M|].
+  apply capv_qr_vr; [|exact MV]. apply vr_vscale_r. unfold qr in *.
   destruct (qltb 1 sf); [rewrite FM; ring|]. destruct (qltb sf 0); [rewrite FM; ring|]. rewrite FM, ES. ring.
 Qed.
 
